@@ -15,6 +15,17 @@ let crc_tab = Array.init 256 (fun i -> let c = ref i in for _ = 1 to 8 do c := i
 let native_crc (l : n list) =
   let c = List.fold_left (fun c b -> (c lsr 8) lxor crc_tab.((c lxor int_of_n b) land 0xff)) 0xFFFFFFFF l in
   Printf.sprintf "%08x" (c lxor 0xFFFFFFFF)
+(* pattern payloads @len.seed.flip (see harness/C18_filestore.cpp) and the digest form of long values *)
+let pattern_spec spec =
+  let v = Array.of_list (List.map int_of_string (split_on '.' spec)) in
+  let len = v.(0) and seed = (if Array.length v > 1 then v.(1) else 0) and flip = (if Array.length v > 2 then v.(2) else -1) in
+  List.init (max len 0) (fun i ->
+    let b = (seed + 31 * i + 17 * (i lsr 8) + 101 * (i lsr 16)) land 255 in
+    byte_tab.(if i = flip then b lxor 0x5a else b))
+let payload tok = if String.length tok > 0 && tok.[0] = '@' then pattern_spec (String.sub tok 1 (String.length tok - 1)) else bytes_of_hex tok
+let show (l : n list) = let n = List.length l in if n <= 4096 then hex_of_bytes l else Printf.sprintf "#%d.%s" n (native_crc l)
+let take k l = let rec go k l acc = if k <= 0 then List.rev acc else match l with [] -> List.rev acc | x :: r -> go (k - 1) r (x :: acc) in go k l []
+let rec drop k l = if k <= 0 then l else match l with [] -> [] | _ :: r -> drop (k - 1) r
 let n_of_string s = (* decimal, < 2^62 *) n_of_int (int_of_string s)
 let summary names d =
   let parts = List.concat (List.mapi (fun i nm ->
@@ -30,6 +41,13 @@ let chunks_str t d acc =
   String.concat "," (List.rev parts)
 let () = main_loop (fun toks ->
   match toks with
+  | "Z" :: specs ->
+      String.concat " " (List.map (fun tok ->
+        let a = split_on ':' tok in
+        let buf = pattern_spec (List.hd a) in
+        let ns = (match a with [_; s] -> List.map int_of_string (split_on ',' s) | _ -> []) in
+        let (chunks, rest) = List.fold_left (fun (acc, rest) n -> (take n rest :: acc, drop n rest)) ([], buf) ns in
+        hex8 (crc32_calc (List.rev (rest :: chunks)))) specs)
   | fl :: nm :: ops when String.length fl = 2 && fl.[0] = 'F' && String.length nm >= 2 && String.sub nm 0 2 = "N=" ->
       let names = List.map name_of_string (split_on ',' (String.sub nm 2 (String.length nm - 2))) in
       let nth_name i = List.nth names (int_of_string i) in
@@ -42,36 +60,36 @@ let () = main_loop (fun toks ->
           | ["M"; i; now; mb] ->
               let (r, d') = load_limited (n_of_int (int_of_string mb * 1048576)) (z_of_string now) (nth_name i) !d in
               d := d';
-              (match r with LNone -> "M=none" | LExc -> "M=EXC" | LSome (t, data) -> "M=" ^ string_of_z t ^ "." ^ hex_of_bytes data)
+              (match r with LNone -> "M=none" | LExc -> "M=EXC" | LSome (t, data) -> "M=" ^ string_of_z t ^ "." ^ show data)
           | [("S"|"L"|"X"|"K"|"W"); i] | [("S"|"L"|"X"|"K"|"W"); i; _] | [("S"|"L"|"X"|"K"|"W"); i; _; _] | [("S"|"L"|"X"|"K"|"W"); i; _; _; _] when not (okn i) -> "BAD-OP"
           | [("D"|"H"); i; _; _] when not (okn i) -> "BAD-OP"
           | ["H"; i; now; _] ->
               (* read_all advances its buffer: cut reads of the header fields are transparent as well *)
               let (r, d') = load (z_of_string now) (nth_name i) !d in
               d := d';
-              (match r with None -> "H=none" | Some (t, data) -> "H=" ^ string_of_z t ^ "." ^ hex_of_bytes data)
+              (match r with None -> "H=none" | Some (t, data) -> "H=" ^ string_of_z t ^ "." ^ show data)
           | ["Y"; now; _] -> d := gc (z_of_string now) !d; "Y"
           | ["D"; i; now; ks] ->
               let acc = if ks = "-" then [] else List.map (fun k -> nat_of_int (int_of_string k)) (split_on ',' ks) in
               let (r, d') = load_short (z_of_string now) (nth_name i) acc !d in
               d := d';
-              (match r with None -> "D=none" | Some (t, data) -> "D=" ^ string_of_z t ^ "." ^ hex_of_bytes data)
+              (match r with None -> "D=none" | Some (t, data) -> "D=" ^ string_of_z t ^ "." ^ show data)
           | ["W"; i; t; h; ks] ->
-              let t = z_of_string t and data = bytes_of_hex h in
+              let t = z_of_string t and data = payload h in
               let acc = if ks = "-" then [] else List.map (fun k -> nat_of_int (int_of_string k)) (split_on ',' ks) in
               d := save_short (nth_name i) t data acc !d; "W[" ^ chunks_str t data acc ^ "]"
           | ["S"; i; t; h] ->
-              let t = z_of_string t and data = bytes_of_hex h in
+              let t = z_of_string t and data = payload h in
               d := save (nth_name i) t data !d; "S[" ^ writes_str t data ^ "]"
           | ["K"; i; t; h; ps] ->
-              let t = z_of_string t and data = bytes_of_hex h in
+              let t = z_of_string t and data = payload h in
               let ps = if ps = "-" then [] else List.map n_of_string (split_on ',' ps) in
               d := crash_save (nth_name i) t data ps !d; "K[" ^ writes_str t data ^ "]"
-          | ["P"; i; h] -> d := store (nth_name i) (bytes_of_hex h) !d; "P"
+          | ["P"; i; h] -> d := store (nth_name i) (payload h) !d; "P"
           | ["L"; i; now] ->
               let (r, d') = load (z_of_string now) (nth_name i) !d in
               d := d';
-              (match r with None -> "L=none" | Some (t, data) -> "L=" ^ string_of_z t ^ "." ^ hex_of_bytes data)
+              (match r with None -> "L=none" | Some (t, data) -> "L=" ^ string_of_z t ^ "." ^ show data)
           | ["G"; now] -> d := gc (z_of_string now) !d; "G"
           | ["X"; i] -> d := remove (nth_name i) !d; "X"
           | ["T"; i; t; _; _; _] when okn i ->
@@ -85,7 +103,7 @@ let () = main_loop (fun toks ->
           | ["Q"; now; h] ->
               let (r, d') = sid_load (z_of_string now) (bytes_of_hex h) !d in
               d := d';
-              (match r with None -> "Q=none" | Some (t, data) -> "Q=" ^ string_of_z t ^ "." ^ hex_of_bytes data)
+              (match r with None -> "Q=none" | Some (t, data) -> "Q=" ^ string_of_z t ^ "." ^ show data)
           | _ -> "BAD-OP") in
         if r = "BAD-OP" then r else r ^ summary names !d) ops in
       String.concat " " outs
